@@ -457,6 +457,38 @@ def if_rule(run, quick):
         run.property_failure("c04:ifeq-differs-from-its-rule", "expand(%r) gave %r; Model.FlatCall.ifeq_result says otherwise"
                              % (c["page"], res[idx[b]]["out"]), c["page"])
     run.extra["ifeq_calls_checked_against_the_rule"] = len(coq_cases)
+    # ---- #switch with keyed cases
+    KEYS = ["a", " a ", "b", "A", "1", "01", "+1", "1.0", "2", "a b", "#default", " #default ", "#DEFAULT", "", "c"]
+    cases = []
+    for _ in range(250 if quick else 4000):
+        x = rng.choice(["a", " a", "b", "1", "01", "2.0", "zz", "", "A", "a b"])
+        kvs = [(rng.choice(KEYS), rng.choice([v for v in VALS if "|" not in v])) for _ in range(rng.randint(0, 5))]
+        cases.append({"lib": [], "page": "{{#switch:" + "|".join([x] + [k + "=" + v for k, v in kvs]) + "}}", "opts": {}, "title": "Tt"})
+    res = lib.run_impl("expandlib", cases, shards=lib.NCPU)
+    coq_cases, idx = [], []
+    for i, (c, r) in enumerate(zip(cases, res)):
+        run.count({"switch": c["page"]}, c["page"].count("|") >= 2, "switch-keyed")
+        if r.get("outcome") != "ok":
+            run.property_failure("switch:%s:%s" % (r.get("outcome"), r.get("exc", "")), "expand() did not return normally: %r" % (r,), c["page"])
+            continue
+        pa = r["page_ast"]
+        if len(pa) != 1 or isinstance(pa[0], int) or pa[0][0] != "T" or any(not isinstance(y, int) for a in pa[0][1] for y in a) \
+                or pa[0][1][0][:8] != [35, 115, 119, 105, 116, 99, 104, 58] or any(61 not in a for a in pa[0][1][1:]):
+            run.correspondence_break("a generated #switch call was not read as one call with plain keyed cases", c["page"], page_ast=pa)
+            continue
+        kv = lambda a: "(%s, %s)" % (G.coq_enc(a[:a.index(61)]), G.coq_enc(a[a.index(61) + 1:]))
+        coq_cases.append("(%s, %s, %s)" % (G.coq_enc(pa[0][1][0][8:]), clist(pa[0][1][1:], kv, "enc * enc"), cstr(r["out"])))
+        idx.append(i)
+    bad, errs = lib.coq_eval_failing("c04k", IMPORTS + ["Model.FlatCall"], "enc * list (enc * enc) * str", coq_cases,
+                                     "fun '(x, cs, o) => forallb case_ok cs && str_eqb (codes (add_newline (switch_result (strip_i x) cs None))) o",
+                                     chunk=350)
+    for e in errs:
+        run.correspondence_break("model evaluation failed (#switch rule)", None, error=e)
+    for b in bad:
+        c = cases[idx[b]]
+        run.property_failure("c04:switch-differs-from-its-rule", "expand(%r) gave %r; Model.FlatCall.switch_result says otherwise"
+                             % (c["page"], res[idx[b]]["out"]), c["page"])
+    run.extra["switch_calls_checked_against_the_rule"] = len(coq_cases)
 
 
 def run(run):
